@@ -33,6 +33,7 @@ class BaseValue(int):
 
 class Resource(BaseValue):
     NAME: ClassVar[str] = ''
+    MAX: ClassVar[int] = RESOURCE_VALUE_MAX  # largest value the field can hold, one octet fields override it
     codes: ClassVar[dict[str, int]] = {}
     names: ClassVar[dict[int, str]] = {}
 
@@ -61,11 +62,11 @@ class Resource(BaseValue):
             return cls.codes[name]
         if string.isdigit():
             value = int(string)
-            if 0 <= value <= RESOURCE_VALUE_MAX:
+            if 0 <= value <= cls.MAX:
                 return value
         if string_is_hex(string):
             value = int(string[2:], 16)
-            if 0 <= value <= RESOURCE_VALUE_MAX:
+            if 0 <= value <= cls.MAX:
                 return value
         raise ValueError(f'unknown {cls.NAME} {name}')
 
